@@ -5,7 +5,11 @@ import (
 	"testing"
 
 	corev1 "k8s.io/api/core/v1"
+	metav1 "k8s.io/apimachinery/pkg/apis/meta/v1"
+	"k8s.io/apimachinery/pkg/labels"
 	"pgregory.net/rapid"
+
+	asv1 "github.com/pingcap/advanced-statefulset/client/apis/apps/v1"
 
 	"verifharness/model"
 	"verifharness/sim"
@@ -50,10 +54,14 @@ func fixedPointOracle(rep Rep, s *Sys, checkQuiet bool) {
 		partition = int(*ru.RollingUpdate.Partition)
 	}
 	nReady, nCur, nUpd := 0, 0, 0
+	sel, _ := metav1.LabelSelectorAsSelector(set.Spec.Selector)
 	for _, p := range pods {
 		ord, ok := model.Canonical(s.Name, p.Name)
 		if !ok {
 			continue
+		}
+		if ref := metav1.GetControllerOf(p); (ref != nil && ref.UID != set.UID) || (ref == nil && sel != nil && !sel.Matches(labels.Set(p.Labels))) {
+			continue // somebody else's pod that happens to carry such a name: no member, nothing the set may touch
 		}
 		if !isControlledBy(p.OwnerReferences, set.UID) {
 			rep.Violate("fixpoint/pod-not-controlled", "pod %s is not controlled by the set at the fixed point\n%s", p.Name, s.Transcript())
@@ -118,6 +126,14 @@ func closeAndCheck(rep Rep, s *Sys) bool {
 		return false
 	}
 	B := closingBudget(s)
+	// a pod that occupies the name of a desired ordinal but can never be a member (its labels do not match, or it
+	// belongs to another controller): the name is taken, the set cannot get there and says so on every reconcile.
+	// Such a run gets a short closing schedule (enough for a controller that wrongly settles), not the full budget.
+	squatted := nameTaken(s, set)
+	if squatted && B > 12 {
+		B = 12
+		s.queueBurst = 4 // (every reconcile of the unchanged controller fails and is queued again at once)
+	}
 	var fixed, livelock bool
 	var rounds int
 	if s.W != nil && s.W.EventMode {
@@ -147,6 +163,10 @@ func closeAndCheck(rep Rep, s *Sys) bool {
 		}
 	}
 	if !fixed {
+		if squatted || nameTaken(s, set) {
+			rep.Label("premise-excluded:name-of-desired-ordinal-taken-by-foreign-pod")
+			return false
+		}
 		if livelock {
 			rep.Violate("converge/livelock", "the closing schedule revisits a state while still writing (round %d)\n%s", rounds, s.Transcript())
 		}
@@ -154,6 +174,27 @@ func closeAndCheck(rep Rep, s *Sys) bool {
 	}
 	fixedPointOracle(rep, s, true)
 	return true
+}
+
+// nameTaken: some pod holds the name of a desired ordinal of set without being claimable by it.
+func nameTaken(s *Sys, set *asv1.StatefulSet) bool {
+	sel, err := metav1.LabelSelectorAsSelector(set.Spec.Selector)
+	if err != nil {
+		return false
+	}
+	D := model.DesiredSet(int(*set.Spec.Replicas), parseSlots(set))
+	for _, p := range s.C.PodsIn(NS) {
+		ord, ok := model.Canonical(s.Name, p.Name)
+		if !ok || !D[ord] {
+			continue
+		}
+		// (a pod of the set whose labels stopped matching is released at the next reconcile and then is such a pod)
+		ref := metav1.GetControllerOf(p)
+		if (ref != nil && ref.UID != set.UID) || !sel.Matches(labels.Set(p.Labels)) {
+			return true
+		}
+	}
+	return false
 }
 
 func repairKinds(w World) int {
@@ -310,6 +351,7 @@ var c12Opts = func() worldOpts {
 	w[OpUserDeletePod] = 2
 	w[OpKubelet] = 10
 	w[OpAddStrayPod] = 1
+	w[OpRelabelPod] = 1
 	o.weights = w
 	return o
 }()
